@@ -484,8 +484,17 @@ def run_c18(tier, seed):
                                   dict(kind="list", scenario=sc[0] if sc else None, cfg=cfgs.get(sid), popnames=popnames, request=ln, invariant="NoForbidden"))
             else:
                 raise Inconclusive("ListTrace validation failed: %s %s" % (r.violated, r.error))
+        # "the accounts the requesting client is permitted to access": WHO is requesting is the subject name of the certificate that was
+        # verified - not an alternative name it also carries, another spelling, or an unverified certificate sent after it.  Listings
+        # over real TLS for every such caller (ApiTrace.IdentityIsCN)
+        import apifamily
+        ident = apifamily.matrix_phase("C18", tier, wd, verdict, min_served=2, min_refused=0,
+                                       select=lambda c: c["cred"].startswith("valid") and "signer" not in c["cred"] and c["method"] == "Lister.ListAccounts")
+        info["states"] += ident["states"]
+        info["transitions"] += ident["transitions"]
         rc = verdict.finish()
         cov = dict(states=info["states"], transitions=info["transitions"], traces_validated_against_impl=len(index),
+                   identity_over_real_tls=dict(cells=ident["cells"], obtained_data=ident["served"], server_setups=ident["modes"]),
                    samples=[dict(kind="list-trace", lines=lines[:5])], configurations=len(scenarios), list_requests=nlists, accounts_returned=nreturned,
                    accounts_created_dynamically=ncreated, configurations_against_the_dirk_binary=len(bscs), path_catalogue=PATHCAT, exhaustive=False, checker_cmd="tlc PermTable / ListTrace; harness cmd/permdrv")
         write_evidence(prop, tier, seed, "model_checking", cov, time.time() - t0, violations=len(verdict.violations),
